@@ -1,6 +1,7 @@
 package main
 
 import (
+	"fmt"
 	"go/token"
 	"go/types"
 
@@ -105,6 +106,7 @@ func engineGEN(w *World, tier string) *EngineResult {
 			}
 		}
 	}
+	genScope(w, r)
 	r.Stats["generator_cells"] = len(gens)
 	r.Stats["generator_cell_stores"] = nStores
 	r.floor("generator_cells", 1)
@@ -157,4 +159,185 @@ func cellFeedsString(fn *ssa.Function, cell genCell) bool {
 		}
 	}
 	return false
+}
+
+// GEN-scope (C19, C18): a name that becomes (part of) a key of a process-wide table must
+// come from a process-wide generator. A generator whose counter is a field of its receiver
+// hands out the same names from every instance (one per configuration file, say); used in
+// keys of a package-level map, the entries of two instances overwrite each other.
+func genScope(w *World, r *EngineResult) {
+	// instance-scoped generators: methods returning a string built from an integer field of
+	// the receiver that they advance
+	inst := map[*ssa.Function]string{}
+	for _, fn := range w.Funcs {
+		if fn.Signature.Recv() == nil || len(fn.Params) == 0 || fn.Signature.Results().Len() != 1 || !isStringType(fn.Signature.Results().At(0).Type()) {
+			continue
+		}
+		recv := fn.Params[0]
+		for _, b := range fn.Blocks {
+			for _, ins := range b.Instrs {
+				st, ok := ins.(*ssa.Store)
+				if !ok {
+					continue
+				}
+				fa, ok := st.Addr.(*ssa.FieldAddr)
+				if !ok || fa.X != ssa.Value(recv) || !isIntType(st.Val.Type()) {
+					continue
+				}
+				bo, ok := st.Val.(*ssa.BinOp)
+				if !ok || bo.Op != token.ADD {
+					continue
+				}
+				ld, ok := bo.X.(*ssa.UnOp)
+				if !ok {
+					continue
+				}
+				f2, ok := ld.X.(*ssa.FieldAddr)
+				if !ok || f2.X != ssa.Value(recv) || f2.Field != fa.Field {
+					continue
+				}
+				// the field's value reaches the returned string
+				feeds := false
+				for _, b2 := range fn.Blocks {
+					for _, in2 := range b2.Instrs {
+						if l2, ok := in2.(*ssa.UnOp); ok && l2.Op == token.MUL {
+							if f3, ok := l2.X.(*ssa.FieldAddr); ok && f3.X == ssa.Value(recv) && f3.Field == fa.Field {
+								for _, ref := range *l2.Referrers() {
+									switch y := ref.(type) {
+									case *ssa.MakeInterface, *ssa.Convert:
+										feeds = true
+									case *ssa.BinOp:
+										// count - 1 handed to a formatter
+										for _, r2 := range *y.Referrers() {
+											switch z := r2.(type) {
+											case *ssa.MakeInterface, *ssa.Convert:
+												feeds = true
+											case *ssa.Call:
+												if cal := z.Call.StaticCallee(); cal != nil && cal.Pkg != nil && cal.Pkg.Pkg.Path() == "strconv" {
+													feeds = true
+												}
+											}
+										}
+									case *ssa.Call:
+										if cal := y.Call.StaticCallee(); cal != nil && cal.Pkg != nil && cal.Pkg.Pkg.Path() == "strconv" {
+											feeds = true
+										}
+									}
+								}
+							}
+						}
+					}
+				}
+				if feeds {
+					inst[fn] = fieldNameOf(fa)
+				}
+			}
+		}
+	}
+	r.Stats["instance_scoped_generators"] = len(inst)
+	n := 0
+	for _, fn := range w.Funcs {
+		ord := 0
+		for _, b := range fn.Blocks {
+			for _, ins := range b.Instrs {
+				c, ok := ins.(*ssa.Call)
+				if !ok {
+					continue
+				}
+				cal := c.Call.StaticCallee()
+				fld, isGen := inst[cal]
+				if !isGen {
+					continue
+				}
+				n++
+				ord++
+				construct := "name from " + cal.Name()
+				if ord > 1 {
+					construct += fmt.Sprintf("#%d", ord)
+				}
+				pos := w.pos(instrPos(c))
+				if where := flowsToGlobalKey(w, c, 0, map[ssa.Value]bool{}); where != "" {
+					r.violated("GEN-scope", fnKey(fn), construct, "the name comes from a counter kept in the receiver (field "+fld+": every instance starts over) and becomes part of a key of a package-level table ("+where+"): entries made through two instances overwrite each other", pos)
+				} else {
+					r.holds("GEN-scope", fnKey(fn), construct, "the name does not reach a key of a package-level table", pos)
+				}
+			}
+		}
+	}
+	r.Stats["instance_scoped_names"] = n
+}
+
+// flowsToGlobalKey: where v (a string) becomes part of a key of a package-level map.
+func flowsToGlobalKey(w *World, v ssa.Value, depth int, seen map[ssa.Value]bool) string {
+	if seen[v] || depth > 6 || v.Referrers() == nil {
+		return ""
+	}
+	seen[v] = true
+	for _, ref := range *v.Referrers() {
+		switch x := ref.(type) {
+		case *ssa.BinOp, *ssa.Phi, *ssa.ChangeType, *ssa.Convert, *ssa.Slice:
+			if s := flowsToGlobalKey(w, x.(ssa.Value), depth, seen); s != "" {
+				return s
+			}
+		case *ssa.MapUpdate:
+			if x.Key == v {
+				if g := rootGlobal(x.Map); g != nil {
+					return "store into " + globalName(g) + " at " + w.pos(instrPos(x))
+				}
+			}
+		case *ssa.Lookup:
+			if x.Index == v {
+				if g := rootGlobal(x.X); g != nil {
+					return "look-up in " + globalName(g) + " at " + w.pos(instrPos(x))
+				}
+			}
+		case *ssa.Store:
+			if x.Val != v {
+				continue
+			}
+			// a field of a key struct under construction, or a local variable
+			var cell ssa.Value
+			switch a := x.Addr.(type) {
+			case *ssa.FieldAddr:
+				cell = a.X
+			case *ssa.Alloc:
+				cell = a
+			}
+			if al, ok := cell.(*ssa.Alloc); ok {
+				for _, r2 := range *al.Referrers() {
+					if ld, ok := r2.(*ssa.UnOp); ok {
+						if s := flowsToGlobalKey(w, ld, depth, seen); s != "" {
+							return s
+						}
+					}
+				}
+			}
+		case *ssa.Return:
+			// the caller continues the flow
+			fn := x.Parent()
+			if nd := w.CallGraph().Nodes[fn]; nd != nil && depth < 5 {
+				for _, e := range nd.In {
+					if e.Site == nil || e.Site.Value() == nil {
+						continue
+					}
+					if s := flowsToGlobalKey(w, e.Site.Value(), depth+1, seen); s != "" {
+						return s
+					}
+				}
+			}
+		case *ssa.Call:
+			cal := x.Call.StaticCallee()
+			if cal == nil || cal.Pkg == nil || !inModule(cal.Pkg.Pkg.Path()) || len(cal.Blocks) == 0 {
+				continue
+			}
+			for ai, a := range x.Call.Args {
+				if a == v && ai < len(cal.Params) {
+					if s := flowsToGlobalKey(w, cal.Params[ai], depth+1, seen); s != "" {
+						return s
+					}
+				}
+			}
+		}
+	}
+	return ""
 }
